@@ -109,16 +109,19 @@ FuncsProg(c) ==
                                               Line("proto", "IsFuncPrototype", <<L("int", 3), TAB1, Slot("f", 5, 2), L("(void);", 7)>>), Empty>> ELSE <<>>
   IN [p |-> HeaderEmpty \o protos \o Bld(1), line |-> 0, target |-> Empty]
 
-RECURSIVE ParamSeq(_, _)
-ParamSeq(i, n) == IF i > n THEN <<>> ELSE (IF i > 1 THEN <<L(", ", 2)>> ELSE <<>>)
-                                       \o (IF i % 3 = 0 THEN <<L("const char", 10), L(" ", 1), L("*", 1), Slot("p", 1, i)>>
+(* shape: "plain" or a callback with k parameters of its own as parameter number min(2, n): its inner commas are not *)
+(* parameters of the function                                                                                          *)
+RECURSIVE ParamSeq(_, _, _)
+ParamSeq(i, n, shape) == IF i > n THEN <<>> ELSE (IF i > 1 THEN <<L(", ", 2)>> ELSE <<>>)
+                                       \o (IF shape > 0 /\ i = (IF n >= 2 THEN 2 ELSE 1) THEN FParam(2, i, shape)
+                                           ELSE IF i % 3 = 0 THEN <<L("const char", 10), L(" ", 1), L("*", 1), Slot("p", 1, i)>>
                                            ELSE IF i % 3 = 1 THEN <<L("int", 3), L(" ", 1), Slot("p", 1, i)>>
-                                           ELSE <<L("char", 4), L(" ", 1), L("**", 2), Slot("p", 2, i)>>) \o ParamSeq(i + 1, n)
-ArgsCases == {[lim |-> "args", n |-> n, where |-> w] : n \in 1..10, w \in {"def", "proto"}}
+                                           ELSE <<L("char", 4), L(" ", 1), L("**", 2), Slot("p", 2, i)>>) \o ParamSeq(i + 1, n, shape)
+ArgsCases == {[lim |-> "args", n |-> n, where |-> w, shape |-> sh] : n \in 1..10, w \in {"def", "proto"}, sh \in 0..3}
 ArgsProg(c) ==
   IF c.where = "def"
-  THEN LET h == FHead(1, ParamSeq(1, c.n)) IN [p |-> HeaderEmpty \o <<h, Brace(TRUE, 0), SimpleLine(1), Brace(FALSE, 0)>>, line |-> 3, target |-> h]
-  ELSE LET pr == Line("proto", "IsFuncPrototype", <<L("int", 3), TAB1, Slot("f", 5, 1), L("(", 1)>> \o ParamSeq(1, c.n) \o <<L(");", 2)>>)
+  THEN LET h == FHead(1, ParamSeq(1, c.n, c.shape)) IN [p |-> HeaderEmpty \o <<h, Brace(TRUE, 0), SimpleLine(1), Brace(FALSE, 0)>>, line |-> 3, target |-> h]
+  ELSE LET pr == Line("proto", "IsFuncPrototype", <<L("int", 3), TAB1, Slot("f", 5, 1), L("(", 1)>> \o ParamSeq(1, c.n, c.shape) \o <<L(");", 2)>>)
        IN [p |-> HeaderEmpty \o <<pr, Empty>> \o SmallFunc(2), line |-> 3, target |-> pr]
 
 VarsCases == {[lim |-> "vars", n |-> n, arr |-> a] : n \in 2..11, a \in BOOLEAN}
